@@ -211,6 +211,28 @@ def replaceFilesE (tol : Bool) (sch : Sched) (s : St) (files : List File) : Res 
     ⟨⟨w.fs, w.last⟩, w.out, w.k⟩
   | o => ⟨⟨r.fs, s.last⟩, o, r.k⟩
 
+/-- REFUTED VARIANT ("ENOENT on create is benign"): the write loop logs and `continue`s when `WriteFile` fails at
+`Create` with an error that unwraps to `fs.ErrNotExist`, instead of returning. Kept only to state the witness
+`enoent_on_create_benign_witness`; the code (and `writeLoop`) aborts on a `WriteFile` error of ANY class. -/
+def writeLoopBenign (sch : Sched) : Nat → FS → List String → List File → RW
+  | k, fs, last, [] => ⟨fs, last, k, .ok⟩
+  | k, fs, last, f :: rest =>
+    match sch k with
+    | some .enoent => writeLoopBenign sch (k + 1) fs (last ++ [f.path]) rest
+    | _ =>
+      let r := writeFile sch k fs f
+      match r.out with
+      | .ok => writeLoopBenign sch r.k r.fs (last ++ [f.path]) rest
+      | o   => ⟨r.fs, last ++ [f.path], r.k, o⟩
+
+def replaceFilesBenign (sch : Sched) (s : St) (files : List File) : Res :=
+  let r := removeLoop sch 0 s.fs s.last
+  match r.out with
+  | .ok =>
+    let w := writeLoopBenign sch r.k r.fs [] files
+    ⟨⟨w.fs, w.last⟩, w.out, w.k⟩
+  | o => ⟨⟨r.fs, s.last⟩, o, r.k⟩
+
 /-- Does the test `ReplaceFiles` applies to `Remove`'s error recognise the ENOENT that `Remove` produces?
 `producer`: how `StdLibOSFileManager.Remove` returns the error of `os.Remove` (`direct` = unchanged,
 `wrapped-%w` = inside `fmt.Errorf("…%w", err)`); `test`: the classifier in `ReplaceFiles`
